@@ -357,8 +357,14 @@ fn mutate(rng: &mut Rng, p: &mut Vec<u8>, csi: bool) {
             if csi && p.len() >= 16 {
                 let l_aux = i32::from_le_bytes([p[12], p[13], p[14], p[15]]);
                 if l_aux > 0 && 16 + l_aux as usize <= p.len() {
-                    let k = rng.range(1, 9) as usize;
-                    let pad: Vec<u8> = if rng.chance(1, 2) { vec![0; 4 * (1 + k % 2)] } else { (0..k).map(|_| rng.below(3) as u8).collect() };
+                    // the sync reader takes the padding for n_ref ...: keep what it then reads as counts small
+                    // (the Coq models iterate on unary counts)
+                    let pad: Vec<u8> = match rng.below(4) {
+                        0 => vec![0; rng.range(1, 2) as usize],
+                        1 => vec![rng.below(3) as u8, 0, 0, 0],
+                        2 => vec![rng.below(3) as u8, 0, 0, 0, rng.below(3) as u8, 0, 0, 0],
+                        _ => vec![0; 4 * rng.range(1, 2) as usize],
+                    };
                     let at = 16 + l_aux as usize;
                     p[12..16].copy_from_slice(&(l_aux + pad.len() as i32).to_le_bytes());
                     let tail = p.split_off(at);
